@@ -572,9 +572,6 @@ impl Graph {
                 }
             }
         }
-        // Don't remove the graph root (only happens when no leaf can ever match). It is kept
-        // without being a seed of the traversal: states that merely lead back to it are dead.
-        reach_accept.insert(graph.root);
 
         // Now that we have a set of non-dead states, we can remove edges going to dead states.
         for state in graph.iter_states() {
@@ -587,6 +584,11 @@ impl Graph {
 
             state_data.backward.clear();
         }
+
+        // Don't remove the graph root (only happens when no leaf can ever match). It is kept
+        // without being a seed of the traversal and after its incoming edges, a loop on the root
+        // included, have been removed: states that merely lead back to it are dead.
+        reach_accept.insert(graph.root);
 
         // And then remove dead states from the graph entirely.
         graph.retain_states(&reach_accept, true);
